@@ -120,7 +120,10 @@ theorem get_eq_bitAt (s : Storage) (i : Nat) : get s i = bitAt s i := by
 
 theorem length_set (s : Storage) (i : Nat) : (set s i).length = s.length := by simp [set]
 theorem length_clear (s : Storage) (i : Nat) : (clear s i).length = s.length := by simp [clear]
-theorem length_setAll (s : Storage) : (setAll s).length = s.length := by simp [setAll]
+theorem length_setAll (cap : Nat) (s : Storage) : (setAll cap s).length = s.length := by
+  unfold setAll
+  simp only
+  split <;> simp
 theorem length_clearAll (s : Storage) : (clearAll s).length = s.length := by simp [clearAll]
 theorem length_mk (cap : Nat) : (mk cap).length = unitCount cap := by simp [mk]
 
@@ -165,8 +168,9 @@ theorem bitAt_clear (s : Storage) (i j : Nat) :
       simp
     · simp [hji]
 
-theorem bitAt_setAll (s : Storage) (i : Nat) : bitAt (setAll s) i = decide (i < 8 * s.length) := by
-  unfold bitAt setAll
+theorem bitAt_allOnes (s : Storage) (i : Nat) :
+    bitAt (s.map (fun _ => 255#8)) i = decide (i < 8 * s.length) := by
+  unfold bitAt
   by_cases h : i / 8 < s.length
   · have hlt : i % 8 < 8 := Nat.mod_lt _ (by decide)
     have : i < 8 * s.length := by omega
@@ -176,6 +180,31 @@ theorem bitAt_setAll (s : Storage) (i : Nat) : bitAt (setAll s) i = decide (i < 
   · have : ¬ i < 8 * s.length := by omega
     rw [getD_oob _ _ _ (by simp; omega)]
     simp [this]
+
+/-- `set()` (after the padding repair) sets exactly the indices below the capacity. -/
+theorem bitAt_setAll (cap : Nat) (s : Storage) (hwf : s.length = unitCount cap) (i : Nat) :
+    bitAt (setAll cap s) i = decide (i < cap) := by
+  unfold setAll
+  simp only
+  unfold unitCount contain at hwf
+  by_cases ht : cap % 8 = 0
+  · have : ¬ cap % 8 ≠ 0 := by omega
+    rw [if_neg this, bitAt_allOnes]
+    congr 1
+    apply propext
+    omega
+  · rw [if_pos ht, bitAt_setByte, bitAt_allOnes]
+    simp only [List.length_map]
+    unfold unitCount contain
+    by_cases h : i / 8 = (cap + (8 - 1)) / 8 - 1 ∧ (cap + (8 - 1)) / 8 - 1 < s.length
+    · rw [if_pos h, getLsbD_tailMask _ _ (Nat.mod_lt _ (by decide)) (Nat.mod_lt _ (by decide))]
+      congr 1
+      apply propext
+      omega
+    · rw [if_neg h]
+      congr 1
+      apply propext
+      omega
 
 theorem bitAt_clearAll (s : Storage) (i : Nat) : bitAt (clearAll s) i = false := by
   unfold bitAt clearAll
@@ -461,6 +490,15 @@ theorem toBool_iff (s : Storage) (unit width : Nat) :
       intro hne
       have := (scanFull_fst (width / 8) 0#8 s unit).2 ⟨j, hj, hne⟩
       rw [hsc] at this; cases this
+    by_cases hb0 : width % 8 = 0
+    · rw [if_pos hb0]
+      simp only [Bool.false_eq_true, false_iff]
+      rintro ⟨i, hi, hb⟩
+      have hi8 : i % 8 < 8 := Nat.mod_lt _ (by decide)
+      have e : 8 * unit + i = 8 * (unit + i / 8) + i % 8 := by omega
+      rw [e, bitAt_unit _ _ _ hi8, hz _ (by omega)] at hb
+      simp at hb
+    rw [if_neg hb0]
     have hbit : width % 8 < 8 := Nat.mod_lt _ (by decide)
     constructor
     · intro h
@@ -508,9 +546,8 @@ theorem toBoolRun_oob_irrel (o1 o2 : Byte) (s : Storage) (unit width : Nat)
   cases (View.scanFull o2 s unit (width / 8)).1
   · simp only [Bool.false_eq_true, if_false]
     by_cases hb : width % 8 = 0
-    · have : ((1#8 <<< (width % 8)) - 1#8) = 0#8 := by rw [hb]; decide
-      rw [this]; simp
-    · rw [getD_inb s (unit + width / 8) o1 o2 (by omega)]
+    · rw [if_pos hb, if_pos hb]
+    · rw [if_neg hb, if_neg hb, getD_inb s (unit + width / 8) o1 o2 (by omega)]
   · simp
 
 end Hfsm.Model.Bits
